@@ -5,8 +5,9 @@ import OpdaProofs.NoisyReal
 import OpdaProofs.NoisyInv
 import OpdaProofs.NoisyConv
 import OpdaProofs.NoisyAccuracy
+import OpdaProofs.BisectRobust
 /-!
-# C07 — NoisyQuadratic quantile function inverts its cdf  *(proof of the bisection logic; accuracy proved for even `c` in exact arithmetic, conditional otherwise)*
+# C07 — NoisyQuadratic quantile function inverts its cdf  *(proof of the bisection logic; accuracy proved in exact arithmetic for even `c` and, by robust bisection against the Spec, for part of the odd `c`; measured otherwise)*
 
 Property theorems only.  They are about `Opda.Noisy.ppf` / `ppfBisect` / `bisect`, the polymorphic
 definitions the driver evaluates at `Float` and that `harness/corr_C07.py` ties to
@@ -21,10 +22,23 @@ for **even `c = 2k`, `1 ≤ k ≤ 50`**, every `a ≤ b`, `o ≥ 0` other than t
 the Lipschitz constant `k/(b−a)` of the mixture cdf and the Chernoff bound `Φ(−6) ≤ e^{−18}`); for **every `c`** in the
 noiseless and normal regimes (`cdf_ppf_noiseless_real`, `cdf_ppf_normal_real`: exact inverses).
 
-**Not theorems**: the accuracy clause for **odd `c` in the series regime** (there the cdf is a piecewise-polynomial
-approximation whose monotonicity/Lipschitz constant depend on C06's numerics; `bisect_accuracy` stays conditional) and
-for `c > 100`; everything about **IEEE rounding** (the theorems are at `ℝ`; at `Float` the residual is measured every run
-with the code's own cdf); that `normal_ppf(0) = −∞`, `normal_ppf(1) = +∞` in the `normal` regime (a fact about
+**Odd `c`, series regime** (section `odd`, lemmas in `OpdaProofs/BisectRobust.lean`): there the model's cdf is a
+piecewise-polynomial approximation, within `ε = 1.02·max_error(selected entry)` of the Spec at every real `y` (C06 ∘ C19) and
+not known to be monotone.  `bisect_accuracy_robust` / `bisect_robust_generic`: a bisection that runs on a function `ε`-close to
+a monotone `L`-Lipschitz `G` returns `y` with `|G y − q| ≤ ε + L·w + tail`, hence residual `≤ 2ε + L·w + tail` (`w` the final
+bracket width).  With `G` = the Spec (`spec_monotone_lipschitz_tails`: monotone for `c ≥ 1`, `(c/2)/(b−a)`-Lipschitz for `c ≥ 2`,
+Gaussian tails; `spec_lipschitz_from_noise`: `0.4/o`-Lipschitz for every `c ≥ 1`) and the shipped table (regenerated from
+`_approximations.json` on every run; this file imports the generated certificates):
+`cdf_ppf_odd_shipped_table_partial` — odd `c ≥ 3`: `|cdf(ppf q) − q| ≤ 2·1.02·max_error(e) + (c/2)(1+12·o/(b−a))/2^30 + Φ(−6)`;
+`cdf_ppf_odd_shipped_table_noise_partial` — every odd `c` with a row, `c = 1` included, middle term `0.4(12 + (b−a)/o)/2^30`;
+`cdf_ppf_odd_tolerance_partial` — **the property's `1e-5` itself** for `c = 9` (every scale of the regime), `c = 5` with
+`o/(b−a) < 1/5`, `c = 3` with `o/(b−a) < 1/50` (kernel check `shipped_entries_within_tolerance` on the table).
+
+**Not theorems**: the accuracy clause at `1e-5` for **`c = 1`, `c = 7`, `c = 5` at scales `≥ 0.2`, `c = 3` at scales `≥ 0.02`**
+in the series regime (the proved bound `2·1.02·max_error + …` exceeds `1e-5` there: 1.6e-5 for `c = 7`, up to 1.6e-3 for
+`c = 1`; the factor 2 is inherent to a bisection on a cdf known only to be `ε`-close to a monotone function) — measured on
+every run; `c > 100`; everything about **IEEE rounding** (the theorems are at `ℝ`; at `Float` the residual is measured every
+run with the code's own cdf); that `normal_ppf(0) = −∞`, `normal_ppf(1) = +∞` in the `normal` regime (a fact about
 `erfinv`, compared).
 -/
 namespace Opda.Props.C07
@@ -63,6 +77,33 @@ theorem bisect_accuracy (hF : Lawful F) (d : Params α) (hab : d.a ≤ d.b) (ho 
     |cdf F d (ppfBisect F d q) - q| ≤ L * ((d.b - d.a + 12 * d.o) / 2 ^ 30)
       + max 0 (max (cdf F d (d.a - 6 * d.o) - q) (q - cdf F d (d.b + 6 * d.o))) :=
   ppfBisect_accuracy hF d hab ho L q hmono hlip
+
+/-- **T2'' `bisect_accuracy_robust`** (conditional, for a cdf that is *not* known to be monotone): if the model's cdf is
+within `ε` of some `G` on the bracket, and `G` is monotone and `L`-Lipschitz there, then the value returned by the 30-step
+bisection **on the model's cdf** satisfies `|cdf(ppf q) − q| ≤ 2ε + L·(b−a+12o)/2^30` plus the distance of `q` from
+`[G(a−6o), G(b+6o)]`.  (The loop only compares `cdf mid` with `q`, so every moved end point has `G lo < q + ε` resp.
+`q − ε ≤ G hi`.)  With `G = cdf`, `ε = 0` this is `bisect_accuracy`. -/
+theorem bisect_accuracy_robust (hF : Lawful F) (d : Params α) (hab : d.a ≤ d.b) (ho : 0 ≤ d.o) (G : α → α) (L ε q : α)
+    (hclose : ∀ x, d.a - 6 * d.o ≤ x → x ≤ d.b + 6 * d.o → |cdf F d x - G x| ≤ ε)
+    (hmono : ∀ x y, d.a - 6 * d.o ≤ x → x ≤ y → y ≤ d.b + 6 * d.o → G x ≤ G y)
+    (hlip : ∀ x y, d.a - 6 * d.o ≤ x → x ≤ y → y ≤ d.b + 6 * d.o → G y - G x ≤ L * (y - x)) :
+    |cdf F d (ppfBisect F d q) - q| ≤ 2 * ε + L * ((d.b - d.a + 12 * d.o) / 2 ^ 30)
+      + max 0 (max (G (d.a - 6 * d.o) - q) (q - G (d.b + 6 * d.o))) :=
+  ppfBisect_accuracy_robust hF d hab ho G L ε q hclose hmono hlip
+
+/-- the same for the generic `Bisect.run` with any number of steps and any bracket (the object `bisect_is_generic` identifies
+the model's loop with): `f` arbitrary, `g` monotone and `L`-Lipschitz on `[lo, hi]`, `|f − g| ≤ ε` there; the midpoint `y` of
+the final bracket has `|g y − q| ≤ ε + L(hi−lo)/2^k + tail` and `|f y − q| ≤ 2ε + L(hi−lo)/2^k + tail`,
+`tail = max 0 (max (g lo − q) (q − g hi))`. -/
+theorem bisect_robust_generic (f g : α → α) (L ε q : α) (k : Nat) (lo hi : α) (hlh : lo ≤ hi)
+    (hclose : ∀ x, lo ≤ x → x ≤ hi → |f x - g x| ≤ ε)
+    (hmono : ∀ x y, lo ≤ x → x ≤ y → y ≤ hi → g x ≤ g y)
+    (hlip : ∀ x y, lo ≤ x → x ≤ y → y ≤ hi → g y - g x ≤ L * (y - x)) :
+    let br := Bisect.run f (fun lo hi => (lo + hi) / 2) q k (lo, hi)
+    |g ((br.1 + br.2) / 2) - q| ≤ ε + L * ((hi - lo) / 2 ^ k) + max 0 (max (g lo - q) (q - g hi))
+      ∧ |f ((br.1 + br.2) / 2) - q| ≤ 2 * ε + L * ((hi - lo) / 2 ^ k) + max 0 (max (g lo - q) (q - g hi)) :=
+  ⟨run_accuracy_robust_spec f g L ε q k lo hi hlh hclose hmono hlip,
+   run_accuracy_robust f g L ε q k lo hi hlh hclose hmono hlip⟩
 
 /-! **T3** the end-point decision table -/
 
@@ -162,7 +203,7 @@ theorem cdf_even_tails (d : Params ℝ) (k : ℕ) (hk : 1 ≤ k) (hc : d.c = 2 *
 
 /-- **accuracy with an explicit bound, every even `c ≥ 2`** (series regime, exact real arithmetic, both shapes,
 `q ∈ (0,1)`): `|cdf(ppf q) − q| ≤ k(1 + 12·o/(b−a))/2^30 + Φ(−6)` — Lipschitz constant × final bracket width, plus
-the Gaussian mass beyond 6 standard deviations.  `_partial`: even `c` only, `ℝ` only (odd `c`, IEEE rounding: compared). -/
+the Gaussian mass beyond 6 standard deviations.  `_partial`: even `c` only, `ℝ` only (odd `c`: section `odd` below; IEEE rounding: compared). -/
 theorem cdf_ppf_even_explicit_partial (d : Params ℝ) (k : ℕ) (hk : 1 ≤ k) (hc : d.c = 2 * k) (hab : d.a ≤ d.b)
     (hp : pointMass (realFns T ninf pinf) d = false) (h : regime (realFns T ninf pinf) d = .nothing)
     (q : ℝ) (hq0 : 0 < q) (hq1 : q < 1) :
@@ -176,7 +217,7 @@ in the series regime (`pointMass = false`, `regime = .nothing`, i.e. `a < b`, `1
 every `q ∈ (0,1)`: `|cdf(ppf q) − q| ≤ 1e-5` in exact real arithmetic (the bound actually obtained is
 `(121k + 4096)/2^30`, `≤ 4.4e-6` for `c ≤ 10`).  `a < b` and `o > 0` follow from the regime (`nothing_pos`), so only
 `a ≤ b` is assumed.  `_partial`: missing for the full clause are **odd `c`** in this regime (the cdf is then a
-piecewise-polynomial approximation; only compared), `c > 100`, and **IEEE rounding** (the statement is about the model
+piecewise-polynomial approximation; partly proved in section `odd` below, otherwise compared), `c > 100`, and **IEEE rounding** (the statement is about the model
 term at `ℝ`, not at `Float`; the `Float` residual is measured on every run). -/
 theorem cdf_ppf_even_series_partial (d : Params ℝ) (k : ℕ) (hk : 1 ≤ k) (hk50 : k ≤ 50) (hc : d.c = 2 * k)
     (hab : d.a ≤ d.b) (hp : pointMass (realFns T ninf pinf) d = false)
@@ -195,7 +236,7 @@ theorem cdf_ppf_normal_real (d : Params ℝ) (hab : d.a ≤ d.b)
 
 /-- **the accuracy clause for even `c ≤ 100` in all three regimes, exact real arithmetic**: every `a ≤ b`, `o ≥ 0`
 except the point mass `a = b ∧ o = 0` (where `cdf` jumps and the clause is meaningless), both shapes, `q ∈ (0,1)`.
-`_partial`: odd `c` (series regime) and IEEE rounding are missing, as above. -/
+`_partial`: odd `c` (series regime: section `odd` below, partial) and IEEE rounding are missing, as above. -/
 theorem cdf_ppf_even_all_regimes_partial (d : Params ℝ) (k : ℕ) (hk : 1 ≤ k) (hk50 : k ≤ 50) (hc : d.c = 2 * k)
     (hab : d.a ≤ d.b) (ho : 0 ≤ d.o) (hp : pointMass (realFns T ninf pinf) d = false)
     (q : ℝ) (hq0 : 0 < q) (hq1 : q < 1) :
@@ -203,6 +244,135 @@ theorem cdf_ppf_even_all_regimes_partial (d : Params ℝ) (k : ℕ) (hk : 1 ≤ 
   cdf_ppf_even_all T ninf pinf d k hk hk50 hc hab ho hp q hq0 hq1
 
 end even
+
+/-! ### the accuracy clause for odd `c`, exact real arithmetic (robust bisection against the Spec)
+
+For odd `c` the model's series-regime cdf is a piecewise-polynomial approximation and is not known to be monotone; it is
+within `ε = 1.02·max_error(selected entry)` of the Spec at every real `y` (C06 ∘ C19, `Props/C06.lean`
+`cdf_odd_shipped_table_partial`).  The Spec — `H((y−a)/(b−a))` resp. `1 − H((b−y)/(b−a))`,
+`H(t) = ∫₀¹ Φ((t−x)/s) d(x^{c/2})`, `s = o/(b−a)`, the distribution function of `Z + E` (`C06.spec_is_law_of_sum`) — is
+monotone, `(c/2)/(b−a)`-Lipschitz for `c ≥ 2`, with Gaussian tails; `bisect_accuracy_robust` then bounds the residual of the
+bisection that ran on the *model's* cdf. -/
+
+section odd
+open Opda.Gen Opda.Table
+
+/-- **the Spec of both shapes is monotone (every `c ≥ 1`), `(c/2)/(b−a)`-Lipschitz (every `c ≥ 2`, so every real exponent
+`c/2 ≥ 1`, half-integers included) and has Gaussian tails at the ends of the bisection bracket**, for every `a < b`, `o > 0`.
+(For `c = 1` the noise-free density `½x^{−½}` is unbounded and no noise-independent Lipschitz constant exists.) -/
+theorem spec_monotone_lipschitz_tails (d : Params ℝ) (hab : d.a < d.b) (ho : 0 < d.o) (hc : 1 ≤ d.c) :
+    (∀ x y : ℝ, x ≤ y →
+      (if d.convex then mixture ((d.c : ℝ) / 2) (d.o / (d.b - d.a)) ((x - d.a) / (d.b - d.a))
+        else 1 - mixture ((d.c : ℝ) / 2) (d.o / (d.b - d.a)) ((d.b - x) / (d.b - d.a)))
+      ≤ (if d.convex then mixture ((d.c : ℝ) / 2) (d.o / (d.b - d.a)) ((y - d.a) / (d.b - d.a))
+        else 1 - mixture ((d.c : ℝ) / 2) (d.o / (d.b - d.a)) ((d.b - y) / (d.b - d.a))))
+    ∧ (2 ≤ d.c → ∀ x y : ℝ, x ≤ y →
+      (if d.convex then mixture ((d.c : ℝ) / 2) (d.o / (d.b - d.a)) ((y - d.a) / (d.b - d.a))
+        else 1 - mixture ((d.c : ℝ) / 2) (d.o / (d.b - d.a)) ((d.b - y) / (d.b - d.a)))
+      - (if d.convex then mixture ((d.c : ℝ) / 2) (d.o / (d.b - d.a)) ((x - d.a) / (d.b - d.a))
+        else 1 - mixture ((d.c : ℝ) / 2) (d.o / (d.b - d.a)) ((d.b - x) / (d.b - d.a)))
+      ≤ ((d.c : ℝ) / 2) / (d.b - d.a) * (y - x))
+    ∧ (if d.convex then mixture ((d.c : ℝ) / 2) (d.o / (d.b - d.a)) ((d.a - 6 * d.o - d.a) / (d.b - d.a))
+        else 1 - mixture ((d.c : ℝ) / 2) (d.o / (d.b - d.a)) ((d.b - (d.a - 6 * d.o)) / (d.b - d.a))) ≤ Phi (-6)
+    ∧ 1 - Phi (-6)
+      ≤ (if d.convex then mixture ((d.c : ℝ) / 2) (d.o / (d.b - d.a)) ((d.b + 6 * d.o - d.a) / (d.b - d.a))
+        else 1 - mixture ((d.c : ℝ) / 2) (d.o / (d.b - d.a)) ((d.b - (d.b + 6 * d.o)) / (d.b - d.a))) :=
+  ⟨fun x y hxy => cdfSpec_mono d (sub_pos.mpr hab) ho hc x y hxy,
+   fun hc2 x y hxy => cdfSpec_lipschitz d (sub_pos.mpr hab) ho hc2 x y hxy,
+   cdfSpec_tail_lo d (sub_pos.mpr hab) ho hc, cdfSpec_tail_hi d (sub_pos.mpr hab) ho hc⟩
+
+/-- the sharper tail constant used below: `Φ(−6) ≤ e^{−18} ≤ 2e-8` (`gaussian_tail_six` gives `2^{−18}`) -/
+theorem gaussian_tail_six_sharp : Phi (-6) ≤ 1 / 50000000 := Phi_neg_six_le_sharp
+
+/-- **any real instance whose series-regime cdf is within `ε` of the Spec on the bracket** (any table `T`, every `c ≥ 2`, both
+shapes, `q ∈ (0,1)`): `|cdf(ppf q) − q| ≤ 2ε + (c/2)(1 + 12·o/(b−a))/2^30 + Φ(−6)`.  `_partial`: exact real arithmetic only;
+`c = 1` excluded (no Lipschitz constant independent of the noise). -/
+theorem cdf_ppf_within_eps_of_spec_partial (T : List (ℕ × List (Entry ℝ))) (ninf pinf : ℝ) (d : Params ℝ) (hc : 2 ≤ d.c)
+    (hab : d.a ≤ d.b) (hp : pointMass (realFns T ninf pinf) d = false) (h : regime (realFns T ninf pinf) d = .nothing)
+    (ε : ℝ)
+    (hclose : ∀ y, d.a - 6 * d.o ≤ y → y ≤ d.b + 6 * d.o →
+      |cdf (realFns T ninf pinf) d y
+        - (if d.convex then mixture ((d.c : ℝ) / 2) (d.o / (d.b - d.a)) ((y - d.a) / (d.b - d.a))
+           else 1 - mixture ((d.c : ℝ) / 2) (d.o / (d.b - d.a)) ((d.b - y) / (d.b - d.a)))| ≤ ε)
+    (q : ℝ) (hq0 : 0 < q) (hq1 : q < 1) :
+    |cdf (realFns T ninf pinf) d (ppf (realFns T ninf pinf) d q) - q|
+      ≤ 2 * ε + ((d.c : ℝ) / 2) * (1 + 12 * (d.o / (d.b - d.a))) / 2 ^ 30 + Phi (-6) :=
+  cdf_ppf_within_eps T ninf pinf d hc hab hp h ε hclose q hq0 hq1
+
+variable (ninf pinf : ℝ)
+
+/-- **odd `c ≥ 3`, series regime, shipped table, both shapes — an accuracy theorem for the bisection on the non-monotone
+model cdf.**  For every `a ≤ b`, `o` in the series regime (`1e-6(b−a) ≤ o < 10(b−a)`), every odd `c = 2k+1 ≥ 3` that has a
+row in the shipped table (`c ∈ {3,5,7,9}`): the scale `o/(b−a)` selects an entry `e` of that row and for every `q ∈ (0,1)`, in
+exact real arithmetic (`realFns tableR`: real `Φ`, `φ`, the shipped coefficients),
+`|cdf(ppf q) − q| ≤ 2·1.02·max_error(e) + (c/2)(1 + 12·o/(b−a))/2^30 + Φ(−6)`
+(twice the C06 ∘ C19 distance of the model's cdf from the Spec, the Spec's Lipschitz constant × final bracket width
+`≤ c·5.7e-8`, the Gaussian mass beyond `6o`, `≤ 2e-8`).
+`_partial` — what is missing for the property's `1e-5`: the bound is `≤ 1e-5` only where `2.04·max_error(e) ≲ 9.4e-6`, i.e.
+for the entries with `max_error ≲ 4.6e-6`.  Of the shipped table (exponent `c/2`, entry in file order, `min_scale`,
+`max_error`) these are `(1.5, #3, 0, 2.4e-7)`, `(2.5, #1, 0, 3.9e-6)`, `(4.5, #0, 0, 4.6e-6)` — made a theorem in
+`cdf_ppf_odd_tolerance_partial`.  Not reached: `(1.5, #0–#2)` (`max_error` 5.9e-4, 5.5e-5, 1.1e-5: scales `≥ 0.02`),
+`(2.5, #0)` (7.8e-5: scales `≥ 0.2`), `(3.5, #0)` (`c = 7`: 7.8e-6, bound 1.6e-5 at every scale); the factor 2 is tight for
+a bisection on a function known only to be `ε`-close to a monotone one.  **`c = 1`** is not covered here (its Spec has no
+noise-independent Lipschitz constant): see `cdf_ppf_odd_shipped_table_noise_partial`; its entries record 8.2e-6 … 7.9e-4, so
+the `1e-5` is out of reach of this argument at every scale.  IEEE rounding is not covered (statement at `ℝ`; the `Float`
+residual is measured every run). -/
+theorem cdf_ppf_odd_shipped_table_partial (d : Params ℝ) (k : ℕ) (hk : 1 ≤ k) (hc : d.c = 2 * k + 1) (hab : d.a ≤ d.b)
+    (hp : pointMass (realFns tableR ninf pinf) d = false) (h : regime (realFns tableR ninf pinf) d = .nothing)
+    (hkey : ∃ row ∈ tableQ, row.1 = d.c) :
+    ∃ row e, rowOf tableQ d.c = some row ∧ selectR row.2 (d.o / (d.b - d.a)) = some e ∧
+      ∀ q : ℝ, 0 < q → q < 1 →
+        |cdf (realFns tableR ninf pinf) d (ppf (realFns tableR ninf pinf) d q) - q|
+          ≤ 2 * (1.02 * (e.maxError : ℝ)) + ((d.c : ℝ) / 2) * (1 + 12 * (d.o / (d.b - d.a))) / 2 ^ 30 + Phi (-6) :=
+  cdf_ppf_odd_shipped ninf pinf d k hk hc hab hp h hkey
+
+/-- the Spec is `0.4/o`-Lipschitz in `y` for **every** `c ≥ 1`, both shapes (`Φ' = φ ≤ 1/√(2π) < 0.4`; the noise alone
+smooths the law, whatever the noise-free density does) -/
+theorem spec_lipschitz_from_noise (d : Params ℝ) (hab : d.a < d.b) (ho : 0 < d.o) (hc : 1 ≤ d.c) (x y : ℝ) (hxy : x ≤ y) :
+    (if d.convex then mixture ((d.c : ℝ) / 2) (d.o / (d.b - d.a)) ((y - d.a) / (d.b - d.a))
+      else 1 - mixture ((d.c : ℝ) / 2) (d.o / (d.b - d.a)) ((d.b - y) / (d.b - d.a)))
+    - (if d.convex then mixture ((d.c : ℝ) / 2) (d.o / (d.b - d.a)) ((x - d.a) / (d.b - d.a))
+      else 1 - mixture ((d.c : ℝ) / 2) (d.o / (d.b - d.a)) ((d.b - x) / (d.b - d.a)))
+    ≤ 2 / 5 / d.o * (y - x) :=
+  cdfSpec_lipschitz_noise d (sub_pos.mpr hab) ho hc x y hxy
+
+/-- **every odd `c` with a row in the shipped table, `c = 1` included** (series regime, both shapes, `q ∈ (0,1)`, exact real
+arithmetic), with the Lipschitz constant `0.4/o` of the noise instead of `(c/2)/(b−a)`:
+`|cdf(ppf q) − q| ≤ 2·1.02·max_error(e) + 0.4·(12 + (b−a)/o)/2^30 + Φ(−6)`.
+`_partial`: for `c = 1` this is the only bound proved; its middle term is `≤ 3.8e-4` at the smallest scale of the regime
+(`o/(b−a) = 1e-6`) and `≤ 1.7e-8` for `o/(b−a) ≥ 0.03`, and `2·1.02·max_error ≥ 1.68e-5` for every entry of the row of `c = 1`,
+so the property's `1e-5` is **not** obtained for `c = 1` at any scale (measured only).  IEEE rounding not covered. -/
+theorem cdf_ppf_odd_shipped_table_noise_partial (d : Params ℝ) (k : ℕ) (hc : d.c = 2 * k + 1) (hab : d.a ≤ d.b)
+    (hp : pointMass (realFns tableR ninf pinf) d = false) (h : regime (realFns tableR ninf pinf) d = .nothing)
+    (hkey : ∃ row ∈ tableQ, row.1 = d.c) :
+    ∃ row e, rowOf tableQ d.c = some row ∧ selectR row.2 (d.o / (d.b - d.a)) = some e ∧
+      ∀ q : ℝ, 0 < q → q < 1 →
+        |cdf (realFns tableR ninf pinf) d (ppf (realFns tableR ninf pinf) d q) - q|
+          ≤ 2 * (1.02 * (e.maxError : ℝ)) + 2 / 5 * (12 + (d.b - d.a) / d.o) / 2 ^ 30 + Phi (-6) :=
+  cdf_ppf_odd_shipped_noise ninf pinf d k hc hab hp h hkey
+
+/-- kernel check on the table regenerated from `_approximations.json`: every entry of the row of key 9 that a scale `< 10`
+can select records `1.02·max_error ≤ 4.67e-6`; of key 5 at scales `< 1/5`: `≤ 4.02e-6`; of key 3 at scales `< 1/50`:
+`≤ 2.5e-7` (`tolOK c σmax bound`: every entry of the row has `σmax ≤ min_scale` or `1.02·max_error ≤ bound`). -/
+theorem shipped_entries_within_tolerance :
+    (tolOK 9 10 (467 / 100000000) && tolOK 5 (1 / 5) (402 / 100000000) && tolOK 3 (1 / 50) (25 / 100000000)) = true :=
+  shipped_tolerance_check
+
+/-- **the property's own `|cdf(ppf q) − q| ≤ 1e-5` for odd `c`, where the proved bound reaches it** (series regime, shipped
+table, exact real arithmetic, both shapes, every `a ≤ b`, every `q ∈ (0,1)`):
+* `c = 9` at **every** scale of the series regime (`1e-6 ≤ o/(b−a) < 10`);
+* `c = 5` for `o/(b−a) < 1/5`;
+* `c = 3` for `o/(b−a) < 1/50`.
+`_partial`: missing are `c = 1`, `c = 7` (bound 1.6e-5), `c = 5` at scales `≥ 0.2`, `c = 3` at scales `≥ 0.02` — there the
+clause stays a measured fact (`harness/corr_C07.py`) — and IEEE rounding. -/
+theorem cdf_ppf_odd_tolerance_partial (d : Params ℝ) (hab : d.a ≤ d.b)
+    (hp : pointMass (realFns tableR ninf pinf) d = false) (h : regime (realFns tableR ninf pinf) d = .nothing)
+    (hcs : d.c = 9 ∨ (d.c = 5 ∧ d.o / (d.b - d.a) < 1 / 5) ∨ (d.c = 3 ∧ d.o / (d.b - d.a) < 1 / 50))
+    (q : ℝ) (hq0 : 0 < q) (hq1 : q < 1) :
+    |cdf (realFns tableR ninf pinf) d (ppf (realFns tableR ninf pinf) d q) - q| ≤ 1e-5 :=
+  cdf_ppf_odd_tolerance ninf pinf d hab hp h hcs q hq0 hq1
+
+end odd
 
 /-! ### non-vacuity -/
 
@@ -222,6 +392,18 @@ example : Lawful (realFns [] (-1) 2)
 example (c : ℝ) : (∀ x y : ℝ, (0:ℝ) ≤ x → x ≤ y → y ≤ 1 → (fun _ : ℝ => c) x ≤ (fun _ : ℝ => c) y)
     ∧ (∀ x y : ℝ, (0:ℝ) ≤ x → x ≤ y → y ≤ 1 → (fun _ : ℝ => c) y - (fun _ : ℝ => c) x ≤ 0 * (y - x)) := by
   constructor <;> intros <;> simp
+
+/-- `bisect_accuracy_robust`'s hypotheses are satisfiable with a non-monotone `f`: `g = id` on `[0,1]` (monotone,
+1-Lipschitz), `f x = x + ε` left of `1/2` and `x − ε` from there on (drops by `2ε` at `1/2`) -/
+example (ε : ℝ) (hε : 0 ≤ ε) :
+    (∀ x : ℝ, (0:ℝ) ≤ x → x ≤ 1 → |(fun x : ℝ => if x < 1/2 then x + ε else x - ε) x - id x| ≤ ε)
+    ∧ (∀ x y : ℝ, (0:ℝ) ≤ x → x ≤ y → y ≤ 1 → (id x : ℝ) ≤ id y)
+    ∧ (∀ x y : ℝ, (0:ℝ) ≤ x → x ≤ y → y ≤ 1 → (id y : ℝ) - id x ≤ 1 * (y - x)) := by
+  refine ⟨fun x _ _ => ?_, fun x y _ h _ => h, fun x y _ _ _ => by simp⟩
+  show |(if x < 1/2 then x + ε else x - ε) - x| ≤ ε
+  split_ifs
+  · rw [add_sub_cancel_left, abs_of_nonneg hε]
+  · rw [sub_sub_cancel_left, abs_neg, abs_of_nonneg hε]
 
 /-- the hypotheses of the even-`c` accuracy theorems are satisfiable: `a=0, b=1, c=4 (k=2), o=1/10`, convex, lies in
 the series regime; the theorem then applies at, e.g., `q = 1/2` -/
@@ -244,6 +426,37 @@ example : pointMass (realFns [] 0 0) { a := 0, b := 1, c := 3, o := 20, convex :
   constructor
   · rw [Bool.eq_false_iff, Ne, pointMass_iff (realFns_lawful [] 0 0)]; norm_num
   · rw [regime_normal_iff (realFns_lawful [] 0 0)]; norm_num
+
+/-- the hypotheses of the odd-`c` theorems are satisfiable: `a=0, b=1, c=9, o=1/10` (either shape) is in the series regime
+of the instance that reads the shipped table, the table has a row of key 9, and `cdf_ppf_odd_tolerance_partial` then applies
+at, e.g., `q = 1/2`; likewise `c = 5, o = 1/10 < 1/5` and `c = 3, o = 1/100 < 1/50` -/
+example (cv : Bool) :
+    pointMass (realFns tableR 0 0) { a := 0, b := 1, c := 9, o := 1/10, convex := cv } = false
+    ∧ regime (realFns tableR 0 0) { a := 0, b := 1, c := 9, o := 1/10, convex := cv } = .nothing
+    ∧ (∃ row ∈ Opda.Gen.tableQ, row.1 = 9)
+    ∧ |cdf (realFns tableR 0 0) { a := 0, b := 1, c := 9, o := 1/10, convex := cv }
+          (ppf (realFns tableR 0 0) { a := 0, b := 1, c := 9, o := 1/10, convex := cv } (1/2)) - 1/2| ≤ 1e-5
+    ∧ |cdf (realFns tableR 0 0) { a := 0, b := 1, c := 5, o := 1/10, convex := cv }
+          (ppf (realFns tableR 0 0) { a := 0, b := 1, c := 5, o := 1/10, convex := cv } (1/2)) - 1/2| ≤ 1e-5
+    ∧ |cdf (realFns tableR 0 0) { a := 0, b := 1, c := 3, o := 1/100, convex := cv }
+          (ppf (realFns tableR 0 0) { a := 0, b := 1, c := 3, o := 1/100, convex := cv } (1/2)) - 1/2| ≤ 1e-5 := by
+  have hp : ∀ (c : ℕ) (o : ℝ), 0 < o →
+      pointMass (realFns tableR 0 0) { a := 0, b := 1, c := c, o := o, convex := cv } = false := by
+    intro c o ho
+    rw [Bool.eq_false_iff, Ne, pointMass_iff (realFns_lawful tableR 0 0)]; norm_num
+  have hr9 : regime (realFns tableR 0 0) { a := 0, b := 1, c := 9, o := 1/10, convex := cv } = .nothing := by
+    rw [regime_nothing_iff (realFns_lawful tableR 0 0)]; norm_num
+  have hr5 : regime (realFns tableR 0 0) { a := 0, b := 1, c := 5, o := 1/10, convex := cv } = .nothing := by
+    rw [regime_nothing_iff (realFns_lawful tableR 0 0)]; norm_num
+  have hr3 : regime (realFns tableR 0 0) { a := 0, b := 1, c := 3, o := 1/100, convex := cv } = .nothing := by
+    rw [regime_nothing_iff (realFns_lawful tableR 0 0)]; norm_num
+  refine ⟨hp 9 _ (by norm_num), hr9, shipped_key_present 9 (by simp), ?_, ?_, ?_⟩
+  · exact cdf_ppf_odd_tolerance_partial 0 0 _ (by norm_num) (hp 9 _ (by norm_num)) hr9 (Or.inl rfl) (1/2)
+      (by norm_num) (by norm_num)
+  · exact cdf_ppf_odd_tolerance_partial 0 0 _ (by norm_num) (hp 5 _ (by norm_num)) hr5
+      (Or.inr (Or.inl ⟨rfl, by norm_num⟩)) (1/2) (by norm_num) (by norm_num)
+  · exact cdf_ppf_odd_tolerance_partial 0 0 _ (by norm_num) (hp 3 _ (by norm_num)) hr3
+      (Or.inr (Or.inr ⟨rfl, by norm_num⟩)) (1/2) (by norm_num) (by norm_num)
 
 end Opda.Props.C07
 
